@@ -114,6 +114,14 @@ def check(ctx):
     ctx.decide(not stores and not upd, "C13-R4", fn, SP, "shrake_rupley", "the module-level radii table is never modified", "", "_ATOMIC_RADII is modified in place: change_radii leaks into later calls")
     ctx.decide("modified_radii = deepcopy(_ATOMIC_RADII)" in s and "modified_radii[k] = v" in s, "C13-R4", fn, SP, "shrake_rupley", "change_radii edits a deep copy", "", "change_radii no longer works on a copy")
     ctx.decide("radii = np.array(atom_radii, np.float32) + probe_radius" in s, "C13-R4", fn, SP, "shrake_rupley", "radii = table + probe", "", "probe radius is not added to the tabulated radii")
+    tabs = []
+    for n_ in walk_no_nested(fn):
+        if isinstance(n_, ast.Assign) and dotted(n_.targets[0]) == "atom_radii" and isinstance(n_.value, ast.ListComp):
+            e_ = n_.value.elt
+            tabs.append((n_, dotted(e_.value) if isinstance(e_, ast.Subscript) else None, src(e_.slice) if isinstance(e_, ast.Subscript) else src(e_), src(n_.value.generators[0].iter)))
+    ok = sorted(t[1] or "?" for t in tabs) == ["_ATOMIC_RADII", "modified_radii"] and all(t[2] == "atom.element.symbol" and t[3] == "traj.topology.atoms" for t in tabs)
+    ctx.decide(ok, "C13-R4", tabs[0][0] if tabs else fn, SP, "shrake_rupley", "radii are looked up by element symbol in _ATOMIC_RADII or its modified copy, for every atom of the topology", "",
+               "atom radii are taken from %s: the documented table (and the no-op change_radii path) no longer give the same radii" % [(t[1], t[2]) for t in tabs])
     d = param_default(fn, "probe_radius")
     d2 = param_default(fn, "n_sphere_points")
     ctx.decide(const(d) == 0.14 and const(d2) == 960, "C13-R4", fn, SP, "shrake_rupley", "defaults probe 0.14 nm, 960 points", "", "defaults are %s / %s" % (const(d), const(d2)))
